@@ -203,15 +203,51 @@ Proof.
   destruct (Nat.eqb (next_rq h) q); reflexivity.
 Qed.
 
+Lemma scatter_on_keeps : forall h rq tid idx t,
+    In t (tasks h) -> exists t', In t' (tasks (fst (scatter_on h rq tid idx))) /\ t_id t' = t_id t /\ t_rq t' = t_rq t.
+Proof.
+  intros h rq tid idx t Hin. cbn. exists (bump_exp (length (targets h)) tid t).
+  split; [apply in_map; exact Hin|]. unfold bump_exp. destruct (Nat.eqb (t_id t) tid); auto.
+Qed.
+
+Lemma scatter_many_keeps : forall idxs h rq tid t,
+    In t (tasks h) -> exists t', In t' (tasks (fst (scatter_many h rq tid idxs))) /\ t_id t' = t_id t /\ t_rq t' = t_rq t.
+Proof.
+  induction idxs as [|i idxs IH]; intros h rq tid t Hin; cbn [scatter_many].
+  - exists t. auto.
+  - destruct (scatter_on_keeps h rq tid i t Hin) as [t1 [H1 [A1 B1]]].
+    destruct (scatter_on h rq tid i) as [h1 o1]. cbn [fst] in H1.
+    destruct (IH h1 rq tid t1 H1) as [t2 [H2 [A2 B2]]].
+    destruct (scatter_many h1 rq tid idxs) as [h2 o2]. cbn [fst] in *. exists t2. repeat split; congruence.
+Qed.
+
+Lemma count_rq_remove : forall (p : task -> bool) ts t q,
+    In t ts -> p t = false ->
+    count_rq q (filter p ts) + (if Nat.eqb (t_rq t) q then 1 else 0) <= count_rq q ts.
+Proof.
+  intros p ts t q Hin Hp. unfold count_rq. induction ts as [|x ts IH]; [destruct Hin|].
+  destruct Hin as [->|Hin].
+  - cbn [filter]. rewrite Hp. destruct (Nat.eqb (t_rq t) q); cbn [length].
+    + assert (length (filter (fun t0 => Nat.eqb (t_rq t0) q) (filter p ts)) <= length (filter (fun t0 => Nat.eqb (t_rq t0) q) ts)).
+      { clear. induction ts as [|y ts IH]; [reflexivity|]. cbn [filter]. destruct (p y); cbn [filter];
+          destruct (Nat.eqb (t_rq y) q); cbn [length]; lia. }
+      lia.
+    + assert (length (filter (fun t0 => Nat.eqb (t_rq t0) q) (filter p ts)) <= length (filter (fun t0 => Nat.eqb (t_rq t0) q) ts)).
+      { clear. induction ts as [|y ts IH]; [reflexivity|]. cbn [filter]. destruct (p y); cbn [filter];
+          destruct (Nat.eqb (t_rq y) q); cbn [length]; lia. }
+      lia.
+  - specialize (IH Hin). cbn [filter]. destruct (p x); cbn [filter]; destruct (Nat.eqb (t_rq x) q); cbn [length]; lia.
+Qed.
+
 Lemma client_request_budget : forall h c v h' os rq,
     client_request h c v = (h', os) ->
     length (finals_of rq os) + count_rq rq (tasks h') + fresh_ind rq h' <= count_rq rq (tasks h) + fresh_ind rq h.
 Proof.
   intros h c v h' os rq H. unfold client_request in H.
-  assert (Hind : forall h0, next_rq h0 = next_rq h -> forall n, count_rq rq (tasks h0) = count_rq rq (tasks h) + n ->
+  assert (Hind : forall h0, next_rq h0 = next_rq h -> forall n, count_rq rq (tasks h0) <= count_rq rq (tasks h) + n ->
                  forall fin, fin + n = (if Nat.eqb (next_rq h) rq then 1 else 0) ->
                  fin + count_rq rq (tasks (bump_rq h0)) + fresh_ind rq (bump_rq h0) <= count_rq rq (tasks h) + fresh_ind rq h).
-  { intros h0 Hn n Hc fin Hf. unfold fresh_ind, bump_rq. cbn [tasks next_rq]. rewrite Hn, Hc.
+  { intros h0 Hn n Hc fin Hf. unfold fresh_ind, bump_rq. cbn [tasks next_rq]. rewrite Hn.
     destruct (Nat.eqb (next_rq h) rq) eqn:E.
     - apply Nat.eqb_eq in E. subst rq.
       destruct (Nat.ltb_spec (next_rq h) (S (next_rq h))); destruct (Nat.ltb_spec (next_rq h) (next_rq h)); lia.
@@ -226,7 +262,7 @@ Proof.
     apply new_task_facts in E1. apply scatter_on_facts in E2. destruct E1 as [N1 C1]. destruct E2 as [F2 [N2 C2]].
     cbn [finals_of flat_map]. fold (finals_of rq o). rewrite (no_finals_finals_of _ _ F2). cbn [length app].
     eapply (Hind h2 ltac:(congruence) _ ltac:(rewrite C2, C1; reflexivity) 0). reflexivity. }
-  destruct v as [|b| | | | | |n].
+  destruct v as [|b| | | | | |n bad].
   - (* VWorker *) specialize (Hsc KWorker tmo_worker).
     destruct (new_task h c KWorker tmo_worker) as [h1 tid]. destruct (scatter_on h1 (next_rq h) tid 0). apply Hsc, H.
   - (* VRejected *) inversion H; subst; clear H. cbn [finals_of flat_map app].
@@ -246,13 +282,31 @@ Proof.
     destruct (new_task h c (KStop false) tmo_softstop) as [h1 tid]. destruct (scatter_on h1 (next_rq h) tid 0). apply Hsc, H.
   - (* VLoad *)
     destruct (new_task h c KLoad tmo_load) as [h1 tid] eqn:E1.
-    destruct (scatter_many h1 (next_rq h) tid (seq 1 n)) as [h2 o] eqn:E2. inversion H; subst; clear H.
+    destruct (scatter_many h1 (next_rq h) tid (seq 1 n)) as [h2 o] eqn:E2.
+    pose proof (scatter_many_keeps (seq 1 n) h1 (next_rq h) tid) as Hkeep. rewrite E2 in Hkeep. cbn [fst] in Hkeep.
+    assert (Hnew : exists t, In t (tasks h1) /\ t_id t = tid /\ t_rq t = next_rq h).
+    { unfold new_task in E1. inversion E1; subst. eexists. split; [apply in_or_app; right; left; reflexivity|auto]. }
     apply new_task_facts in E1. apply scatter_many_facts in E2. destruct E1 as [N1 C1]. destruct E2 as [F2 [N2 C2]].
-    assert (Hf : finals_of rq (ONotice c (next_rq h) :: o ++ [ONotice c (next_rq h)]) = []).
-    { apply no_finals_finals_of. intros c' q st [Hin|Hin]; [discriminate|].
-      apply in_app_or in Hin. destruct Hin as [Hin|[Hin|[]]]; [eapply F2; eauto|discriminate]. }
-    rewrite Hf. cbn [length].
-    eapply (Hind h2 ltac:(congruence) _ ltac:(rewrite C2, C1; reflexivity) 0). reflexivity.
+    destruct bad; inversion H; subst; clear H.
+    + (* the state file stops parsing: failure now, the task is cancelled *)
+      destruct Hnew as [t0 [Hin0 [Hid0 Hrq0]]]. destruct (Hkeep t0 Hin0) as [t1 [Hin1 [Hid1 Hrq1]]]. subst tid.
+      pose proof (count_rq_remove (fun t => negb (Nat.eqb (t_id t) (t_id t0))) (tasks h2) t1 rq Hin1
+                                  ltac:(cbv beta; rewrite Hid1, Nat.eqb_refl; reflexivity)) as Hrm.
+      rewrite Hrq1, Hrq0 in Hrm.
+      assert (Hf : length (finals_of rq (ONotice c (next_rq h) :: o ++ [OFinal c (next_rq h) SFailure])) =
+                   if Nat.eqb (next_rq h) rq then 1 else 0).
+      { change (ONotice c (next_rq h) :: o ++ [OFinal c (next_rq h) SFailure])
+          with ([ONotice c (next_rq h)] ++ o ++ [OFinal c (next_rq h) SFailure]).
+        rewrite !finals_of_app, (no_finals_finals_of _ _ F2). cbn. destruct (Nat.eqb (next_rq h) rq); reflexivity. }
+      rewrite Hf.
+      eapply (Hind (cancel_task h2 (t_id t0)) ltac:(cbn [cancel_task next_rq]; congruence) 0).
+      * cbn [cancel_task tasks]. rewrite C2, C1 in Hrm. lia.
+      * lia.
+    + assert (Hf : finals_of rq (ONotice c (next_rq h) :: o ++ [ONotice c (next_rq h)]) = []).
+      { apply no_finals_finals_of. intros c' q st [Hin|Hin]; [discriminate|].
+        apply in_app_or in Hin. destruct Hin as [Hin|[Hin|[]]]; [eapply F2; eauto|discriminate]. }
+      rewrite Hf. cbn [length].
+      eapply (Hind h2 ltac:(congruence) _ ltac:(rewrite C2, C1; reflexivity) 0). reflexivity.
 Qed.
 
 Lemma apply_arm_rq : forall a t, t_rq (apply_arm a t) = t_rq t.
@@ -727,7 +781,7 @@ Lemma spawn_inv : forall es h os c k tm (sc : hub -> nat -> nat -> hub * list ou
         sc h1 (next_rq h) tid = (h2, o) -> Scattered h1 (next_rq h) tid h2 o) ->
     forall h1 tid h2 o pre post,
       new_task h c k tm = (h1, tid) -> sc h1 (next_rq h) tid = (h2, o) ->
-      (forall x, In x (pre ++ post) -> exists c' q, x = ONotice c' q) ->
+      (forall x, In x (pre ++ post) -> forall w r q, x <> OSend w r q) ->
       Inv (es ++ [EClient c v]) (bump_rq h2) (os ++ pre ++ o ++ post).
 Proof.
   intros es h os c k tm sc v I Hk Hsc h1 tid h2 o pre post E1 E2 Hpp.
@@ -744,10 +798,10 @@ Proof.
                                In (OSend w r q) os \/ (In (OSend w r q) o /\ q = next_rq h /\ In (r, tid) (in_flight h2))).
   { intros w r q Hin. apply in_app_or in Hin. destruct Hin as [Hin|Hin]; [left; exact Hin|].
     apply in_app_or in Hin. destruct Hin as [Hin|Hin].
-    - destruct (Hpp _ (in_or_app _ _ _ (or_introl Hin))) as [c' [q' Hx]]. discriminate.
+    - exfalso. apply (Hpp _ (in_or_app _ _ _ (or_introl Hin)) w r q). reflexivity.
     - apply in_app_or in Hin. destruct Hin as [Hin|Hin].
       + right. destruct (sc_outs _ _ _ _ _ S _ Hin) as [w' [r' [Eo Hr]]]. inversion Eo; subst. auto.
-      + destruct (Hpp _ (in_or_app _ _ _ (or_intror Hin))) as [c' [q' Hx]]. discriminate. }
+      + exfalso. apply (Hpp _ (in_or_app _ _ _ (or_intror Hin)) w r q). reflexivity. }
   constructor.
   - (* WF *) destruct (sc_wf _ _ _ _ _ S). constructor; assumption.
   - (* RqB *) intros t Hin. cbn [bump_rq tasks next_rq] in *. rewrite Eg2 in Hin.
@@ -785,6 +839,43 @@ Proof.
     destruct (inv_sent _ _ _ I t Hin w r Hs) as [A|[A|A]]; auto. right. left. apply acked_mono. exact A.
 Qed.
 
+Lemma NoDup_map_filter : forall (A B : Type) (g : A -> B) (p : A -> bool) l,
+    NoDup (map g l) -> NoDup (map g (filter p l)).
+Proof.
+  induction l as [|e l IH]; intros H; cbn [filter map]; [constructor|].
+  cbn [map] in H. inversion H; subst. destruct (p e); [|apply IH; assumption].
+  cbn [map]. constructor; [|apply IH; assumption].
+  intros Hin. apply in_map_iff in Hin. destruct Hin as [e' [E Hin]].
+  apply filter_In in Hin. destruct Hin as [Hin _]. apply H2. rewrite <- E. apply in_map. exact Hin.
+Qed.
+
+Lemma cancel_inv : forall es h os tid, Inv es h os -> Inv es (cancel_task h tid) os.
+Proof.
+  intros es h os tid I. pose proof (inv_wf _ _ _ I) as W. unfold cancel_task.
+  assert (Hcp : cancel_purges = true) by reflexivity. rewrite Hcp.
+  assert (Hk : forall t, In t (filter (fun t => negb (Nat.eqb (t_id t) tid)) (tasks h)) -> In t (tasks h) /\ t_id t <> tid).
+  { intros t Hin. apply filter_In in Hin. destruct Hin as [A B]. split; [exact A|].
+    apply negb_true_iff in B. apply Nat.eqb_neq in B. exact B. }
+  constructor.
+  - constructor; cbn [tasks in_flight workers next_task next_rq].
+    + intros t Hin. apply (wf_tid _ W t (proj1 (Hk t Hin))).
+    + apply NoDup_map_filter. apply (wf_nodup_id _ W).
+    + apply NoDup_map_fst_filter. apply (wf_keys _ W).
+    + intros r x Hin. apply filter_In in Hin. destruct Hin as [Hin Hp]. cbn [snd] in Hp.
+      destruct (wf_live _ W r x Hin) as [A [t [B C]]]. split; [exact A|]. exists t. split; [|exact C].
+      apply filter_In. split; [exact B|]. rewrite C. exact Hp.
+    + apply (wf_workers _ W).
+    + intros t Hin Hkd. apply (wf_load _ W t (proj1 (Hk t Hin)) Hkd).
+    + intros t Hin. destruct (Hk t Hin) as [Hin0 Hne].
+      rewrite open_count_filter_keep; [apply (wf_acc _ W t Hin0)|].
+      intros e _ He. rewrite He. apply negb_true_iff. apply Nat.eqb_neq. exact Hne.
+  - intros t Hin. cbn [tasks next_rq] in *. apply (inv_rq _ _ _ I t (proj1 (Hk t Hin))).
+  - intros w r q Hin. cbn [next_rq]. apply (inv_fresh _ _ _ I _ _ _ Hin).
+  - intros t Hin w r Hs. cbn [tasks in_flight] in *. destruct (Hk t Hin) as [Hin0 Hne].
+    destruct (inv_sent _ _ _ I t Hin0 w r Hs) as [A|[A|A]]; auto.
+    left. apply filter_In. split; [exact A|]. cbn [snd]. apply negb_true_iff. apply Nat.eqb_neq. exact Hne.
+Qed.
+
 Lemma burn_ids_inv : forall es h os b, Inv es h os -> Inv es (burn_ids h b) os.
 Proof.
   intros es h os b [W R F S]. destruct W. constructor; [constructor|..]; try assumption.
@@ -806,8 +897,8 @@ Proof.
     { intros a b c0 d Wa Ha Fa Ea. apply (scatter_on_scattered _ _ _ _ _ _ Wa Ha Fa Ea). }
     specialize (Hs Hsc h1 tid h2 o [ONotice c (next_rq h)] [] E1 E2).
     rewrite !app_nil_r in Hs. cbn [app] in Hs. apply Hs.
-    intros x Hin. destruct Hin as [<-|[]]. eauto. }
-  destruct v as [|b| | | | | |n].
+    intros x Hin. destruct Hin as [<-|[]]. discriminate. }
+  destruct v as [|b| | | | | |n bad].
   - destruct (new_task h c KWorker tmo_worker) as [h1 tid] eqn:E1.
     destruct (scatter_on h1 (next_rq h) tid 0) as [h2 o] eqn:E2. inversion H; subst; clear H.
     apply (Hone KWorker tmo_worker ltac:(first [discriminate | intros _; reflexivity]) _ _ _ _ E1 E2).
@@ -825,8 +916,8 @@ Proof.
     destruct (scatter_on h1 (next_rq h) tid 0) as [h2 o] eqn:E2. inversion H; subst; clear H.
     apply (Hone (KStop false) tmo_softstop ltac:(first [discriminate | intros _; reflexivity]) _ _ _ _ E1 E2).
   - destruct (new_task h c KLoad tmo_load) as [h1 tid] eqn:E1.
-    destruct (scatter_many h1 (next_rq h) tid (seq 1 n)) as [h2 o] eqn:E2. inversion H; subst; clear H.
-    pose proof (spawn_inv es h os c KLoad tmo_load (fun h1 rq tid => scatter_many h1 rq tid (seq 1 n)) (VLoad n) I
+    destruct (scatter_many h1 (next_rq h) tid (seq 1 n)) as [h2 o] eqn:E2.
+    pose proof (spawn_inv es h os c KLoad tmo_load (fun h1 rq tid => scatter_many h1 rq tid (seq 1 n)) (VLoad n bad) I
                           (fun _ => proj2 (proj2 (proj2 (proj2 gen_tmo))))) as Hs.
     assert (Hsc : forall h1 tid h2 o, WF h1 -> (exists t, In t (tasks h1) /\ t_id t = tid) -> fresh_idx h1 tid 0 ->
                    scatter_many h1 (next_rq h) tid (seq 1 n) = (h2, o) -> Scattered h1 (next_rq h) tid h2 o).
@@ -834,9 +925,13 @@ Proof.
       apply (scatter_many_scattered (seq 1 n) a (next_rq h) b 1 c0 d); auto.
       - rewrite seq_length. reflexivity.
       - intros r x Hin Hr. specialize (Fa r x Hin Hr). lia. }
-    specialize (Hs Hsc h1 tid h2 o [ONotice c (next_rq h)] [ONotice c (next_rq h)] E1 E2).
-    cbn [app] in Hs |- *. apply Hs.
-    intros x [<-|[<-|[]]]; eauto.
+    destruct bad; inversion H; subst; clear H.
+    + specialize (Hs Hsc h1 tid h2 o [ONotice c (next_rq h)] [OFinal c (next_rq h) SFailure] E1 E2).
+      cbn [app] in Hs |- *.
+      change (bump_rq (cancel_task h2 tid)) with (cancel_task (bump_rq h2) tid).
+      apply cancel_inv. apply Hs. intros x [<-|[<-|[]]]; discriminate.
+    + specialize (Hs Hsc h1 tid h2 o [ONotice c (next_rq h)] [ONotice c (next_rq h)] E1 E2).
+      cbn [app] in Hs |- *. apply Hs. intros x [<-|[<-|[]]]; discriminate.
 Qed.
 
 Lemma inv_es_mono : forall es h os e, Inv es h os -> Inv (es ++ [e]) h (os ++ []).
@@ -960,15 +1055,6 @@ Proof.
     destruct Hin as [Hx|[]]. discriminate.
 Qed.
 
-Lemma NoDup_map_filter : forall (A B : Type) (g : A -> B) (p : A -> bool) l,
-    NoDup (map g l) -> NoDup (map g (filter p l)).
-Proof.
-  induction l as [|e l IH]; intros H; cbn [filter map]; [constructor|].
-  cbn [map] in H. inversion H; subst. destruct (p e); [|apply IH; assumption].
-  cbn [map]. constructor; [|apply IH; assumption].
-  intros Hin. apply in_map_iff in Hin. destruct Hin as [e' [E Hin]].
-  apply filter_In in Hin. destruct Hin as [Hin _]. apply H2. rewrite <- E. apply in_map. exact Hin.
-Qed.
 
 Lemma id_unique : forall ts t t', NoDup (map t_id ts) -> In t ts -> In t' ts -> t_id t = t_id t' -> t = t'.
 Proof.
@@ -1194,7 +1280,7 @@ Proof.
   intros h e t raw Hin. destruct e as [c v|w r st|w|c|dt];
     [| |rewrite closed_event in Hin; eapply fail_all_no_done; eauto| |];
     cbn [apply_event] in Hin; try (cbn in Hin; contradiction).
-  - unfold client_request in Hin. destruct v as [|b| | | | | |n].
+  - unfold client_request in Hin. destruct v as [|b| | | | | |n bad].
     all: try (cbn in Hin; destruct Hin as [Hx|[]]; discriminate).
     all: try (match type of Hin with context [new_task ?a ?b ?c ?d] => destruct (new_task a b c d) as [h1 tid] end;
               pose proof (scatter_on_no_done h1 (next_rq h) tid 0) as Hn;
@@ -1202,9 +1288,9 @@ Proof.
               destruct Hin as [Hx|Hin]; [discriminate|eapply Hn; eauto]).
     + destruct (new_task h c KLoad tmo_load) as [h1 tid].
       pose proof (scatter_many_no_done (seq 1 n) h1 (next_rq h) tid) as Hn.
-      destruct (scatter_many h1 (next_rq h) tid (seq 1 n)) as [h2 o]. cbn [snd] in *.
-      destruct Hin as [Hx|Hin]; [discriminate|]. apply in_app_or in Hin.
-      destruct Hin as [Hin|[Hx|[]]]; [eapply Hn; eauto|discriminate].
+      destruct (scatter_many h1 (next_rq h) tid (seq 1 n)) as [h2 o]. destruct bad; cbn [snd] in *.
+      all: destruct Hin as [Hx|Hin]; [discriminate|]; apply in_app_or in Hin;
+        destruct Hin as [Hin|[Hx|[]]]; [eapply Hn; eauto|discriminate].
   - unfold worker_response in Hin. destruct r as [r|]; [|destruct Hin].
     destruct (lookup_rid r (in_flight h)); [|destruct Hin].
     destruct (find_task n (tasks h)); [|destruct Hin]. cbn [snd] in Hin.
@@ -1311,11 +1397,11 @@ Qed.
 
 Lemma client_request_final : forall h c v c' rq st,
     In (OFinal c' rq st) (snd (client_request h c v)) ->
-    rq = next_rq h /\ c' = c /\ forall w r q, ~ In (OSend w r q) (snd (client_request h c v)).
+    rq = next_rq h /\ c' = c /\ (st = SOk -> forall w r q, ~ In (OSend w r q) (snd (client_request h c v))).
 Proof.
-  intros h c v c' rq st Hin. unfold client_request in *. destruct v as [|b| | | | | |n].
+  intros h c v c' rq st Hin. unfold client_request in *. destruct v as [|b| | | | | |n bad].
   all: try (cbn in Hin |- *; destruct Hin as [Hx|[]]; inversion Hx; subst;
-            repeat split; intros w r q [Hy|[]]; discriminate).
+            repeat split; intros _ w r q [Hy|[]]; discriminate).
   all: try (match type of Hin with context [new_task ?a ?b ?c ?d] => destruct (new_task a b c d) as [h1 tid] end;
             pose proof (scatter_on_facts h1 (next_rq h) tid 0) as Hf;
             destruct (scatter_on h1 (next_rq h) tid 0) as [h2 o]; cbn [snd] in *;
@@ -1323,17 +1409,20 @@ Proof.
             destruct Hin as [Hx|Hin]; [discriminate|exfalso; eapply Hnf; eauto]).
   - destruct (new_task h c KLoad tmo_load) as [h1 tid].
     pose proof (scatter_many_facts (seq 1 n) h1 (next_rq h) tid) as Hf.
-    destruct (scatter_many h1 (next_rq h) tid (seq 1 n)) as [h2 o]. cbn [snd] in *.
-    destruct (Hf _ _ eq_refl) as [Hnf _].
-    destruct Hin as [Hx|Hin]; [discriminate|]. apply in_app_or in Hin.
-    destruct Hin as [Hin|[Hx|[]]]; [exfalso; eapply Hnf; eauto|discriminate].
+    destruct (scatter_many h1 (next_rq h) tid (seq 1 n)) as [h2 o].
+    destruct (Hf _ _ eq_refl) as [Hnf _]. destruct bad; cbn [snd] in *.
+    + destruct Hin as [Hx|Hin]; [discriminate|]. apply in_app_or in Hin.
+      destruct Hin as [Hin|[Hx|[]]]; [exfalso; eapply Hnf; eauto|].
+      inversion Hx; subst. repeat split. intros Hok. discriminate.
+    + destruct Hin as [Hx|Hin]; [discriminate|]. apply in_app_or in Hin.
+      destruct Hin as [Hin|[Hx|[]]]; [exfalso; eapply Hnf; eauto|discriminate].
 Qed.
 
 Lemma final_origin : forall h e h' os' c rq st,
     step h e = (h', os') -> In (OFinal c rq st) os' ->
     (exists t raw, In (ODone t raw) os' /\ t_rq t = rq /\ t_client t = c /\
                    In st (verdict (t_kind t) (t_err t) (on_finish_flag raw)))
-    \/ (rq = next_rq h /\ forall w r q, ~ In (OSend w r q) os').
+    \/ (rq = next_rq h /\ (st = SOk -> forall w r q, ~ In (OSend w r q) os')).
 Proof.
   intros h e h' os' c rq st H Hin. pose proof H as Hstep. unfold step in H.
   destruct (stopping h); [inversion H; subst; destruct Hin|].
@@ -1343,7 +1432,7 @@ Proof.
   apply filter_In in Hin. destruct Hin as [Hin Hdel]. apply in_app_or in Hin. destruct Hin as [Hin|Hin].
   - right. destruct e as [c0 v|w r st0|w|c0|dt]; cbn [apply_event] in E1.
     + pose proof (client_request_final h c0 v c rq st) as Hc. rewrite E1 in Hc. cbn [snd] in Hc.
-      destruct (Hc Hin) as [A [B C]]. split; [exact A|]. intros w r q Hs.
+      destruct (Hc Hin) as [A [B C]]. split; [exact A|]. intros Hok w r q Hs. specialize (C Hok).
       apply in_send_filter in Hs. apply in_app_or in Hs. destruct Hs as [Hs|Hs]; [eapply C|eapply Hns]; eauto.
     + apply worker_response_facts in E1. destruct E1 as [F _]. exfalso. eapply F; eauto.
     + fold (apply_event h (EWorkerClosed w)) in E1. rewrite closed_event in E1.
@@ -1447,7 +1536,7 @@ Proof.
     assert (Hsc : forall h1 tid h2 o, WF h1 -> (exists t, In t (tasks h1) /\ t_id t = tid) -> fresh_idx h1 tid 0 ->
                    scatter_on h1 (next_rq h) tid 0 = (h2, o) -> Scattered h1 (next_rq h) tid h2 o).
     { intros a b c0 d Wa Ha Fa Ea. apply (scatter_on_scattered _ _ _ _ _ _ Wa Ha Fa Ea). }
-    destruct v as [|b| | | | | |n].
+    destruct v as [|b| | | | | |n bad].
     all: try (inversion H; subst; exact Hid).
     all: try (match type of H with context [new_task ?a ?b ?k ?d] =>
                 destruct (new_task a b k d) as [h1' tid] eqn:E1;
@@ -1455,14 +1544,20 @@ Proof.
                 apply (spawn_tasks h c k d (fun h1 rq tid => scatter_on h1 rq tid 0) W ltac:(first [discriminate | intros _; reflexivity]) Hsc _ _ _ _ E1 E2)
               end).
     destruct (new_task h c KLoad tmo_load) as [h1' tid] eqn:E1.
-    destruct (scatter_many h1' (next_rq h) tid (seq 1 n)) as [h2 o] eqn:E2. inversion H; subst; clear H.
+    destruct (scatter_many h1' (next_rq h) tid (seq 1 n)) as [h2 o] eqn:E2.
     assert (Hsc2 : forall h1 tid h2 o, WF h1 -> (exists t, In t (tasks h1) /\ t_id t = tid) -> fresh_idx h1 tid 0 ->
                    scatter_many h1 (next_rq h) tid (seq 1 n) = (h2, o) -> Scattered h1 (next_rq h) tid h2 o).
     { intros a b c0 d Wa Ha Fa Ea. apply (scatter_many_scattered (seq 1 n) a (next_rq h) b 1 c0 d); auto.
       - rewrite seq_length. reflexivity.
       - intros r x Hin Hr. specialize (Fa r x Hin Hr). lia. }
-    apply (spawn_tasks h c KLoad tmo_load (fun h1 rq tid => scatter_many h1 rq tid (seq 1 n)) W
-                       (fun _ => proj2 (proj2 (proj2 (proj2 gen_tmo)))) Hsc2 _ _ _ _ E1 E2).
+    pose proof (spawn_tasks h c KLoad tmo_load (fun h1 rq tid => scatter_many h1 rq tid (seq 1 n)) W
+                       (fun _ => proj2 (proj2 (proj2 (proj2 gen_tmo)))) Hsc2 _ _ _ _ E1 E2) as [Hnow Hts].
+    destruct bad; inversion H; subst; clear H; [|split; [exact Hnow|exact Hts]].
+    split; [exact Hnow|]. intros t Hin. destruct (Hts t Hin) as [t1 [Hin1 Hs1]]. exists t1. split; [|exact Hs1].
+    cbn [bump_rq cancel_task tasks]. apply filter_In. split; [exact Hin1|].
+    assert (Htid : tid = next_task h) by (unfold new_task in E1; inversion E1; reflexivity).
+    destruct Hs1 as [Hid1 _]. pose proof (wf_tid _ W t Hin) as Hlt.
+    apply negb_true_iff. apply Nat.eqb_neq. lia.
   - rewrite N.add_0_r. apply (worker_response_tasks _ _ _ _ _ _ H).
   - rewrite N.add_0_r. fold (apply_event h (EWorkerClosed w)) in H. rewrite closed_event in H.
     destruct (fail_all_tasks _ _ _ _ _ H) as [N T]. split; [exact N|exact T].
@@ -1638,4 +1733,36 @@ Proof.
   destruct (fail_all_removes _ _ _ _ _ _ _ I H r tid Hin) as [Hin0 Hnot].
   apply Hnot. unfold orphans. apply in_map_iff. exists (r, tid). split; [reflexivity|].
   apply filter_In. split; [exact Hin0|]. cbn [fst]. apply Nat.eqb_eq. exact Hw.
+Qed.
+
+(** ** a cancelled task leaves nothing behind *)
+Lemma cancel_leaves_no_trace_lemma : forall nw tm es h os c n h' os',
+    run (init nw tm) es = (h, os) -> client_request h c (VLoad n true) = (h', os') ->
+    (forall t, In t (tasks h') -> t_rq t <> next_rq h) /\
+    (forall r tid, In (r, tid) (in_flight h') -> tid <> next_task h).
+Proof.
+  intros nw tm es h os c n h' os' Hr H. pose proof (reach_inv _ _ _ _ _ Hr) as I.
+  unfold client_request in H.
+  destruct (new_task h c KLoad tmo_load) as [h1 tid] eqn:E1.
+  destruct (scatter_many h1 (next_rq h) tid (seq 1 n)) as [h2 o] eqn:E2. inversion H; subst h' os'; clear H.
+  destruct (new_task_wf _ _ _ _ _ _ (inv_wf _ _ _ I) E1 (fun _ => proj2 (proj2 (proj2 (proj2 gen_tmo))))) as
+      [W1 [Etid [Ent [Eif [Ew [Enr [Enow [Eg [Est [Etm Ets]]]]]]]]]].
+  assert (Hex : exists t, In t (tasks h1) /\ t_id t = tid).
+  { eexists. split; [rewrite Ets; apply in_or_app; right; left; reflexivity|reflexivity]. }
+  assert (Hfr : fresh_idx h1 tid 1).
+  { intros r x Hin Hx. rewrite Eif in Hin. destruct (wf_live _ (inv_wf _ _ _ I) r x Hin) as [A [t0 [B C]]].
+    pose proof (wf_tid _ (inv_wf _ _ _ I) t0 B). unfold tid_of in *. lia. }
+  pose proof (scatter_many_scattered (seq 1 n) h1 (next_rq h) tid 1 h2 o ltac:(rewrite seq_length; reflexivity) W1 Hex Hfr E2) as S.
+  destruct (sc_tasks _ _ _ _ _ S) as [g [Eg2 Hg]].
+  split.
+  - intros t Hin Hrq. cbn [bump_rq cancel_task tasks] in Hin. apply filter_In in Hin. destruct Hin as [Hin Hne].
+    rewrite Eg2 in Hin. apply in_map_iff in Hin. destruct Hin as [t0 [<- Hin0]].
+    destruct (Hg t0) as [Gid [Grq _]]. rewrite Grq in Hrq. rewrite Gid in Hne.
+    rewrite Ets in Hin0. apply in_app_or in Hin0. destruct Hin0 as [Hin0|[<-|[]]].
+    + pose proof (inv_rq _ _ _ I t0 Hin0). lia.
+    + cbn [t_id] in Hne. rewrite Nat.eqb_refl in Hne. discriminate.
+  - intros r x Hin. cbn [bump_rq cancel_task in_flight] in Hin.
+    assert (Hcp : cancel_purges = true) by reflexivity. rewrite Hcp in Hin.
+    apply filter_In in Hin. destruct Hin as [_ Hne]. cbn [snd] in Hne.
+    apply negb_true_iff in Hne. apply Nat.eqb_neq in Hne. congruence.
 Qed.
